@@ -18,3 +18,6 @@ CONSTANTS
   SAMPLE = 211
   STREAMLEN = 0
   TWOCOLOURS = TRUE
+  RING = 1
+  FILTERED = TRUE
+  STOREORIENT = TRUE
